@@ -216,6 +216,8 @@ def classify(step_text, tags):
                     add("C11", f"freshly inserted row {det} exposes foreign data ({t})")
         elif t == "COUNT":
             add("C11", "Count differs from the number of live rows")
+            if re.search(r"S(InsertKey|UpsertKey|DeleteKey)", step_text):
+                add("C12", "the live rows differ after key operations: a key resolves to a row that is not live, or a keyed row was lost (COUNT)")
             if restore:
                 add("C07", "Count differs after restore")
         elif t == "KEYS":
@@ -323,18 +325,38 @@ def run_hist_engine(ctx, spec):
     for smp in (s.get("samples") or [])[:1]:
         cov["samples"].append({"engine": "hist", "profile": spec["profile"], "history": smp[:4000]})
     # disagreements
+    # The first disagreeing step of a case is always judged.  A disagreement that is a pure observation
+    # (the emitted commits, a trigger's event log, the result of a read-only statement) leaves the
+    # model's and the implementation's collections in step, so the later steps of the case are still
+    # comparable and are judged too; after a disagreement about the state itself (values, indexes,
+    # Count, keys, offsets) the rest of the case only cascades from it and is dropped.
+    allsteps = vlib.steps_per_case(mm)
     for case in sorted(first):
-        step, tags = first[case]
         text = vlib.case_text(s["shards"], case)
         steps = vlib.split_steps(text)
-        props = classify(steps[step], tags)
-        data = {"engine": "hist", "profile": spec["profile"], "seed": seed, "case": case, "step": step,
-                "tags": [(TAGS.get(t, t), d) for t, d in tags],
-                "history": "[" + ";\n  ".join(steps[:step + 1]) + "]"}
-        if ctx.pid in props:
-            ctx.violation("history", "; ".join(props[ctx.pid]) + f"  (profile={spec['profile']} seed={seed} case={case} step={step})", data=data)
-        else:
-            ctx.other.append({"case": case, "step": step, "concerns": sorted(props), "profile": spec["profile"]})
+        reported = False
+        for step, tags in allsteps.get(case, []):
+            props = classify(steps[step], tags)
+            data = {"engine": "hist", "profile": spec["profile"], "seed": seed, "case": case, "step": step,
+                    "tags": [(TAGS.get(t, t), d) for t, d in tags],
+                    "history": "[" + ";\n  ".join(steps[:step + 1]) + "]"}
+            if ctx.pid in props:
+                if not reported:
+                    ctx.violation("history", "; ".join(props[ctx.pid]) + f"  (profile={spec['profile']} seed={seed} case={case} step={step})", data=data)
+                reported = True
+            else:
+                ctx.other.append({"case": case, "step": step, "concerns": sorted(props), "profile": spec["profile"]})
+            stmts_, _c = parse_body(steps[step])
+            neutral = True
+            for t_, det in tags:
+                tn = TAGS.get(t_, str(t_))
+                if tn in ("EMIT", "TRIG"):
+                    continue
+                if tn == "RES" and det < len(stmts_) and re.match(r"S(Term|Read|QueryKey)", stmts_[det]):
+                    continue
+                neutral = False
+            if not neutral or reported:
+                break
     for case, ptxt in (s.get("panics") or {}).items():
         ps = panic_props(ptxt) or [ctx.pid]
         text = vlib.case_text(s["shards"], int(case)) or ""
@@ -828,9 +850,9 @@ PROPS = {
                 rule="writers preserving a+b=100 on every row beside point and range readers reading a, yielding, reading b; every recorded schedule is also replayed through the latch protocol model; plus sequential histories of every column kind (every value a reader is handed is one some transaction committed)"),
     "C07": dict(engines=[H("restore", 60, 800), H("dense", 3, 24, per_shard=1), dict(engine="wire", quick=8, thorough=80, states_quick=12, states_thorough=120)],
                 rule="histories with snapshot->restore->continue cycles; non-trivial = a restore after >=2 commits"),
-    "C11": dict(engines=[H("alloc", 60, 800), dict(engine="alloc", quick=300, thorough=6000), S("ins", 150, 3000, dfs_thorough=4000, locks=False)],
+    "C11": dict(engines=[H("alloc", 60, 800), dict(engine="alloc", quick=300, thorough=6000), S("ins,rows", 220, 4000, dfs_thorough=4000, locks=False)],
                 rule="insert/delete heavy histories; non-trivial = >=3 inserts with a delete or offset reuse"),
-    "C12": dict(engines=[H("keys", 70, 900)],
+    "C12": dict(engines=[H("keys", 70, 900), H("keysatomic", 40, 500)],
                 rule="keyed histories over a 6-key alphabet; non-trivial = >=3 key operations"),
     "C13": dict(engines=[dict(engine="persist", kind="trunc", quick=8, thorough=40), dict(engine="wire", quick=120, thorough=1500, states_quick=16, states_thorough=160)],
                 level_text="theorems about the prefix-safe parsers and the log / restore prefix property (Wire.v, every prefix, no bound) + fault enumeration on the implementation: every sampled prefix (every byte in the thorough tier) of real snapshot and log files is restored; s2 framing is trusted",
